@@ -45,7 +45,10 @@ def graph_specs(draw, max_nodes: int = 12, min_nodes: int = 0, names: str = "adv
     if names == "adversarial":
         name_st = st.text(alphabet=ADVERSARIAL, min_size=1, max_size=4)
     elif names == "unicode":
-        name_st = st.one_of(st.text(min_size=0, max_size=5), st.text(min_size=0, max_size=5), st.sampled_from(RECORD_KEYS))
+        # ... names that are keys of a serialised record, and names that are also output names in use ("0", "x", "out": a reader that
+        # tells nodes from outputs by their text confuses the two)
+        name_st = st.one_of(st.text(min_size=0, max_size=5), st.text(min_size=0, max_size=5), st.sampled_from(RECORD_KEYS),
+                            st.sampled_from(OUT_NAMES))
     else:
         name_st = st.text(alphabet="abc", min_size=1, max_size=3)
     nms = draw(st.lists(name_st, min_size=n, max_size=n, unique=True))
